@@ -7,13 +7,13 @@ Import ListNotations.
 Local Open Scope nat_scope.
 
 (* every tabulated (preset, element), for every angular method, passes the decidable build condition — except the
-   listed pairs ("sg_1", 19) and ("sg_3", 14) *)
+   listed pair ("sg_3", 14) *)
 Theorem presets_bad_rows_listed : forall m,
-  forallb (fun pz => pz_mem pz listed_bad) (bad_rows QOps ntab impl_cfg preset_tables m) = true.
+  forallb (fun pz => pz_mem pz listed_bad) (bad_rows QOps dtab ntab impl_cfg preset_tables m) = true.
 Proof. exact bad_rows_listed. Qed.
 Print Assumptions presets_bad_rows_listed.
 
-(* hence: every shipped preset builds a grid for every element it tabulates other than those two, for every radial
+(* hence: every shipped preset builds a grid for every element it tabulates other than that one, for every radial
    grid (of the size the preset prescribes where it prescribes one), centre, rotation seed, angular method, angular
    data and rotation oracle, with no shell coarser than tabulated *)
 Theorem presets_build_partial :
